@@ -416,9 +416,22 @@ func runMarshal(c *Ctx) {
 			d = 2
 		}
 		v := vg.Value(tc.T, d)
-		for j := 0; j < 4; j++ {
+		// the length of the encoding, to put the end of the buffer's capacity at, just before and
+		// just after the end of the output (and of its last few bytes): code that grows the buffer
+		// while holding on to a view of the old one shows only when the growth happens mid-value
+		encLen := 0
+		if d0, err := tc.P.Marshal(nil, v.Addr().Interface()); err == nil {
+			encLen = len(d0)
+		}
+		for j := 0; j < 6; j++ {
 			prefix := randBytes(c.rng, []int{0, 0, 1, 3, 17}[c.rng.Intn(5)])
 			spare := []int{0, 0, 1, 2, 3, 5, 7, 13, 21, 64, 4096}[c.rng.Intn(11)]
+			if j >= 3 && encLen > 0 {
+				spare = encLen + []int{-1, 0, 1, -2, -3, -5, 2}[c.rng.Intn(7)]
+				if spare < 0 {
+					spare = 0
+				}
+			}
 			byValue := c.rng.Chance(40) && tc.T.Kind() != reflect.Ptr // a pointer passed "by value" is the by-pointer convention for its target
 			c.addMarshal(tc, v, prefix, spare, byValue, "marshal")
 		}
